@@ -321,10 +321,11 @@ theorem lineInv_closed_of (xo yo : Str) (h : LineInv false false xo yo) :
 theorem trimTo_self (g : Str) : trimTo g.length g = g := by simp [trimTo]
 
 /-- a single-line visible token -/
-theorem step_word (sl : Bool) (xo yo g i text v X' Y' Z' : Str)
-    (hinv : LineInv sl xo yo) (hg : g.all isBlank = true) (hi : i.all isBlank = true)
+theorem step_word (sl am : Bool) (xo yo g i text v X' Y' Z' : Str)
+    (hinv : LineInv sl am xo yo) (hg : g.all isBlank = true) (hgam : am = true → g = [])
+    (hi : i.all isBlank = true)
     (ht1 : noNl text = true) (ht2 : headNonSpace text = true) (hv1 : noNl v = true) (hv2 : headNonSpace v = true)
-    (H : ∀ xo' yo', LineInv false xo' yo' → matchLines (xo' ++ X') (yo' ++ Y') = fixLine xo' yo' ++ Z') :
+    (H : ∀ xo' yo', LineInv false false xo' yo' → matchLines (xo' ++ X') (yo' ++ Y') = fixLine xo' yo' ++ Z') :
     matchLines (xo ++ (g ++ text ++ X')) (yo ++ ((if sl = true then i else []) ++ v ++ Y')) =
       fixLine xo yo ++ ((if sl = true then trimTo i.length g else g) ++ text ++ Z') := by
   have hgs := all_blank_space g hg
@@ -336,7 +337,7 @@ theorem step_word (sl : Bool) (xo yo g i text v X' Y' Z' : Str)
     obtain ⟨hx, hy⟩ := hinv.1 rfl
     subst hx; subst hy
     simp only [if_true, List.nil_append]
-    have hcl : LineInv false (g ++ text) (i ++ v) := by
+    have hcl : LineInv false false (g ++ text) (i ++ v) := by
       apply lineInv_closed
       · rw [noNl_append, hgn, ht1]; rfl
       · rw [noNl_append, hin, hv1]; rfl
@@ -350,25 +351,42 @@ theorem step_word (sl : Bool) (xo yo g i text v X' Y' Z' : Str)
     rw [this]
     simp [fixLine]
   | false =>
-    obtain ⟨hx1, hy1, hx2, hy2⟩ := hinv.2 rfl
+    obtain ⟨hx1, hy1, hcase⟩ := hinv.2 rfl
     simp only [Bool.false_eq_true, if_false, List.nil_append]
-    have hcl : LineInv false (xo ++ (g ++ text)) (yo ++ v) := by
-      apply lineInv_closed
-      · rw [noNl_append, hx1, noNl_append, hgn, ht1]; rfl
-      · rw [noNl_append, hy1, hv1]; rfl
-      · rw [lead_closed _ _ hx2, List.length_append]; omega
-      · rw [lead_closed _ _ hy2, List.length_append]; omega
-    have := H _ _ hcl
-    rw [fixLine_closed _ _ _ _ hx2 hy2] at this
-    simp only [List.append_assoc] at this ⊢
-    rw [this]
+    rcases hcase with ⟨hx2, hy2⟩ | ⟨ham, hxy, hws⟩
+    · have hcl : LineInv false false (xo ++ (g ++ text)) (yo ++ v) := by
+        apply lineInv_closed
+        · rw [noNl_append, hx1, noNl_append, hgn, ht1]; rfl
+        · rw [noNl_append, hy1, hv1]; rfl
+        · rw [lead_closed _ _ hx2, List.length_append]; omega
+        · rw [lead_closed _ _ hy2, List.length_append]; omega
+      have := H _ _ hcl
+      rw [fixLine_closed _ _ _ _ hx2 hy2] at this
+      simp only [List.append_assoc] at this ⊢
+      rw [this]
+    · -- the line so far is whitespace common to both sides, and no gap follows
+      have hg0 := hgam ham
+      subst hg0; subst hxy
+      simp only [List.nil_append]
+      have hcl : LineInv false false (xo ++ text) (xo ++ v) := by
+        apply lineInv_closed
+        · rw [noNl_append, hx1, ht1]; rfl
+        · rw [noNl_append, hx1, hv1]; rfl
+        · rw [lead_blank_head _ _ hws ht2, List.length_append]
+          have := List.length_pos_iff.mpr (headNonSpace_ne_nil _ ht2); omega
+        · rw [lead_blank_head _ _ hws hv2, List.length_append]
+          have := List.length_pos_iff.mpr (headNonSpace_ne_nil _ hv2); omega
+      have := H _ _ hcl
+      rw [fixLine_fresh _ _ _ _ hws hws ht2 hv2, trimTo_self] at this
+      simp only [List.append_assoc] at this ⊢
+      rw [this, fixLine_self]
 
 /-- a (possibly multi-line) string token; `sp` is the blank `compat` inserts between consecutive strings -/
 theorem step_string (sl : Bool) (xo yo g i sp s X' Y' Z' : Str)
-    (hinv : LineInv sl xo yo) (hg : g.all isBlank = true) (hi : i.all isBlank = true)
+    (hinv : LineInv sl false xo yo) (hg : g.all isBlank = true) (hi : i.all isBlank = true)
     (hsp : sp.all isBlank = true) (hsps : sl = true → sp = [])
     (hs2 : lastNonSpace s = true)
-    (H : ∀ xo' yo', LineInv false xo' yo' → matchLines (xo' ++ X') (yo' ++ Y') = fixLine xo' yo' ++ Z') :
+    (H : ∀ xo' yo', LineInv false false xo' yo' → matchLines (xo' ++ X') (yo' ++ Y') = fixLine xo' yo' ++ Z') :
     matchLines (xo ++ (g ++ s ++ X')) (yo ++ ((if sl = true then i else []) ++ (sp ++ s) ++ Y')) =
       fixLine xo yo ++ ((if sl = true then trimTo i.length g else g) ++ s ++ Z') := by
   have hgs := all_blank_space g hg
@@ -383,8 +401,8 @@ theorem step_string (sl : Bool) (xo yo g i sp s X' Y' Z' : Str)
     rw [matchLines_common s A B X' Y' hA hB]
     obtain ⟨c1, hc1, hn1⟩ := commonA_closed s hs2 A
     obtain ⟨c2, hc2, hn2⟩ := commonA_closed s hs2 B
-    have hcl : LineInv false (commonA A s) (commonA B s) :=
-      lineInv_closed _ _ (commonA_noNl s A hA) (commonA_noNl s B hB) (lead_lt_of_mem _ _ hc1 hn1)
+    have hcl : LineInv false false (commonA A s) (commonA B s) :=
+      lineInv_closed _ _ _ (commonA_noNl s A hA) (commonA_noNl s B hB) (lead_lt_of_mem _ _ hc1 hn1)
         (lead_lt_of_mem _ _ hc2 hn2)
     rw [H _ _ hcl, ← List.append_assoc, common_stable s A B F hst]
   cases sl with
@@ -398,7 +416,7 @@ theorem step_string (sl : Bool) (xo yo g i sp s X' Y' Z' : Str)
     simp only [List.append_assoc] at this ⊢
     rw [this]; simp [fixLine]
   | false =>
-    obtain ⟨hx1, hy1, hx2, hy2⟩ := hinv.2 rfl
+    obtain ⟨hx1, hy1, hx2, hy2⟩ := lineInv_closed_of _ _ hinv
     simp only [Bool.false_eq_true, if_false, List.nil_append]
     have hst : Stable (xo ++ g) (yo ++ sp) (fixLine xo yo ++ g) := by
       intro a
@@ -438,11 +456,48 @@ theorem headD_blank (stack : List Str) (h : ∀ i ∈ stack, i.all isBlank = tru
   | nil => rfl
   | cons i r => exact h i (by simp)
 
+/-- the state of the current physical line on both sides: no newline, and either both have a non-blank
+character already, or both are the same whitespace -/
+def Inv2 (A B : Str) : Prop :=
+  noNl A = true ∧ noNl B = true ∧ ((lead A < A.length ∧ lead B < B.length) ∨ (A = B ∧ A.all isSpace = true))
+
+theorem common_inv (t : Str) : ∀ (A B : Str), Inv2 A B → Inv2 (commonA A t) (commonA B t) := by
+  induction t with
+  | nil => intro A B h; simpa [commonA] using h
+  | cons c r ih =>
+    intro A B h
+    by_cases hc : c = '\n'
+    · subst hc
+      simp only [commonA, if_true]
+      exact ih [] [] ⟨rfl, rfl, Or.inr ⟨rfl, rfl⟩⟩
+    · simp only [commonA, hc, if_false]
+      apply ih
+      obtain ⟨hA, hB, hcase⟩ := h
+      refine ⟨noNl_snoc A c hA hc, noNl_snoc B c hB hc, ?_⟩
+      rcases hcase with ⟨h1, h2⟩ | ⟨hab, hws⟩
+      · left
+        exact ⟨by rw [lead_closed _ _ h1, List.length_append]; omega,
+               by rw [lead_closed _ _ h2, List.length_append]; omega⟩
+      · subst hab
+        by_cases hs : isSpace c = true
+        · right
+          exact ⟨rfl, by simp [List.all_append, hws, hs]⟩
+        · left
+          simp only [Bool.not_eq_true] at hs
+          have hh1 : headNonSpace [c] = true := by simp [headNonSpace, hs]
+          exact ⟨by rw [lead_blank_head _ _ hws hh1]; simp, by rw [lead_blank_head _ _ hws hh1]; simp⟩
+
+theorem vis_of_ne (t : Tok) (h2 : t.kind ≠ .INDENT) (h6 : t.kind ≠ .FSTRING_MIDDLE) : vis t = t.text := by
+  simp [vis, h2, h6]
+
+theorem vis_middle (t : Tok) (h : t.kind = .FSTRING_MIDDLE) : vis t = escapeBraces t.text := by
+  simp [vis, h]
+
 /-- the IH of the main induction, as a predicate on the tail -/
 def MainFor (p : Str) (as : List ATok) : Prop :=
-  ∀ (d : Nat) (stack : List Str) (sl ps : Bool) (xo yo : Str),
-    wfGo p ⟨d, sl⟩ as = true → stack.length = d → (∀ i ∈ stack, i.all isBlank = true) →
-    (ps = true → sl = false) → LineInv sl xo yo →
+  ∀ (d : Nat) (stack : List Str) (sl ps am : Bool) (xo yo : Str),
+    wfGo p ⟨d, sl, am⟩ as = true → stack.length = d → (∀ i ∈ stack, i.all isBlank = true) →
+    (ps = true → sl = false) → LineInv sl am xo yo →
     matchLines (xo ++ renderA as) (yo ++ compat ⟨stack, sl, ps⟩ (T p.length as)) =
       fixLine xo yo ++ renderA (adjustGo p.length stack sl as)
 
@@ -454,11 +509,12 @@ theorem adjustGo_vis (lvl : Nat) (stack : List Str) (sl : Bool) (a : ATok) (as :
   simp [adjustGo, h2, h3, h4, h5]
 
 theorem main_word (p : Str) (g : Str) (t : Tok) (as : List ATok) (ih : MainFor p as)
-    (d : Nat) (stack : List Str) (sl ps : Bool) (xo yo : Str)
-    (hg : g.all isBlank = true) (hw : wordLike t.text = true) (hd : d ≠ 0) (hwf : wfGo p ⟨d, false⟩ as = true)
+    (d : Nat) (stack : List Str) (sl ps am : Bool) (xo yo : Str)
+    (hg : g.all isBlank = true) (hw : wordLike t.text = true) (hd : d ≠ 0) (hgam : am = true → g = [])
+    (hwf : wfGo p ⟨d, false, false⟩ as = true)
     (hk : t.kind = .NAME ∨ t.kind = .NUMBER ∨ t.kind = .OP ∨ t.kind = .COMMENT ∨ t.kind = .FSTRING_START ∨
       t.kind = .FSTRING_END)
-    (hlen : stack.length = d) (hbl : ∀ i ∈ stack, i.all isBlank = true) (hinv : LineInv sl xo yo) :
+    (hlen : stack.length = d) (hbl : ∀ i ∈ stack, i.all isBlank = true) (hinv : LineInv sl am xo yo) :
     matchLines (xo ++ renderA (⟨g, t⟩ :: as)) (yo ++ compat ⟨stack, sl, ps⟩ (T p.length (⟨g, t⟩ :: as))) =
       fixLine xo yo ++ renderA (adjustGo p.length stack sl (⟨g, t⟩ :: as)) := by
   have hne : stack ≠ [] := by intro h; subst h; simp at hlen; exact hd hlen.symm
@@ -484,63 +540,105 @@ theorem main_word (p : Str) (g : Str) (t : Tok) (as : List ATok) (ih : MainFor p
     · exact hw.2
   rw [renderA_cons, T_cons, stripTok_of_ne _ _ k2, compat_vis _ _ _ _ _ hne k1 k2 k3 k4 k5 k6,
     adjustGo_vis _ _ _ _ _ k2 k3 k4 k5, renderA_cons]
-  simp only [vis, k2, if_false, k7, decide_false]
-  have H : ∀ xo' yo', LineInv false xo' yo' →
+  simp only [vis_of_ne _ k2 k6, k7, decide_false]
+  have H : ∀ xo' yo', LineInv false false xo' yo' →
       matchLines (xo' ++ renderA as) (yo' ++ compat ⟨stack, false, false⟩ (T p.length as)) =
         fixLine xo' yo' ++ renderA (adjustGo p.length stack false as) :=
-    fun xo' yo' h => ih d stack false false xo' yo' hwf hlen hbl (fun h => Bool.noConfusion h) h
-  have := step_word sl xo yo g (stack.headD []) t.text (vOf ps t) _ _ _ hinv hg (headD_blank _ hbl) hw.1 hw.2 hv1 hv2 H
+    fun xo' yo' h => ih d stack false false false xo' yo' hwf hlen hbl (fun h => Bool.noConfusion h) h
+  have := step_word sl am xo yo g (stack.headD []) t.text (vOf ps t) _ _ _ hinv hg hgam (headD_blank _ hbl)
+    hw.1 hw.2 hv1 hv2 H
   simp only [List.append_assoc] at this ⊢
   rw [this]
 
-
-theorem lineInv_nl (sl : Bool) (xo yo : Str) (h : LineInv sl xo yo) : noNl xo = true ∧ noNl yo = true := by
+theorem lineInv_nl (sl am : Bool) (xo yo : Str) (h : LineInv sl am xo yo) : noNl xo = true ∧ noNl yo = true := by
   cases sl with
   | true => obtain ⟨hx, hy⟩ := h.1 rfl; subst hx; subst hy; exact ⟨rfl, rfl⟩
-  | false => obtain ⟨h1, h2, _, _⟩ := h.2 rfl; exact ⟨h1, h2⟩
+  | false => obtain ⟨h1, h2, _⟩ := h.2 rfl; exact ⟨h1, h2⟩
 
-theorem lineInv_fresh : LineInv true [] [] := ⟨fun _ => ⟨rfl, rfl⟩, fun h => Bool.noConfusion h⟩
+theorem lineInv_fresh (am : Bool) : LineInv true am [] [] := ⟨fun _ => ⟨rfl, rfl⟩, fun h => Bool.noConfusion h⟩
+
+/-- end of a physical line at an NL/NEWLINE token with gap `g` (no gap if the line may still be blank) -/
+theorem fixLine_eol (sl am : Bool) (xo yo g : Str) (hinv : LineInv sl am xo yo) (hg : g.all isBlank = true)
+    (hgam : am = true → g = []) :
+    fixLine (xo ++ g) yo = fixLine xo yo ++ (if sl = true then [] else g) := by
+  cases sl with
+  | true =>
+    obtain ⟨hx, hy⟩ := hinv.1 rfl
+    subst hx; subst hy
+    simp only [List.nil_append, if_true]
+    rw [fixLine_blank _ (all_blank_space g hg)]
+    simp [fixLine]
+  | false =>
+    obtain ⟨_, _, hcase⟩ := hinv.2 rfl
+    simp only [Bool.false_eq_true, if_false]
+    rcases hcase with ⟨hx2, hy2⟩ | ⟨ham, _, _⟩
+    · have := fixLine_closed xo yo g [] hx2 hy2
+      simpa using this
+    · rw [hgam ham]; simp
 
 theorem main (p : Str) : ∀ (rest : List ATok), MainFor p rest := by
   intro rest
   induction rest with
   | nil =>
-    intro d stack sl ps xo yo _ _ _ _ hinv
-    obtain ⟨h1, h2⟩ := lineInv_nl _ _ _ hinv
+    intro d stack sl ps am xo yo _ _ _ _ hinv
+    obtain ⟨h1, h2⟩ := lineInv_nl _ _ _ _ hinv
     simp [renderA, T, compat, adjustGo, matchLines_noNl _ _ h1 h2]
   | cons a as ih =>
-    intro d stack sl ps xo yo hwf hlen hbl hps hinv
+    intro d stack sl ps am xo yo hwf hlen hbl hps hinv
     obtain ⟨g, t⟩ := a
     simp only [wfGo, Bool.and_eq_true] at hwf
     obtain ⟨hg, hwf⟩ := hwf
-    have word := fun hw hd hwf' hk => main_word p g t as ih d stack sl ps xo yo hg hw hd hwf' hk hlen hbl hinv
+    have word := fun hw hd hgam hwf' hk =>
+      main_word p g t as ih d stack sl ps am xo yo hg hw hd hgam hwf' hk hlen hbl hinv
+    have nlcase : ∀ (hk : t.kind = .NEWLINE ∨ t.kind = .NL) (ht : t.text = ['\n']) (hgam : am = true → g = [])
+        (hwf' : wfGo p ⟨d, true, false⟩ as = true),
+        matchLines (xo ++ renderA (⟨g, t⟩ :: as)) (yo ++ compat ⟨stack, sl, ps⟩ (T p.length (⟨g, t⟩ :: as))) =
+          fixLine xo yo ++ renderA (adjustGo p.length stack sl (⟨g, t⟩ :: as)) := by
+      intro hk ht hgam hwf'
+      have k2 : t.kind ≠ .INDENT := by rcases hk with h | h <;> simp [h]
+      have k3 : t.kind ≠ .DEDENT := by rcases hk with h | h <;> simp [h]
+      obtain ⟨h1, h2⟩ := lineInv_nl _ _ _ _ hinv
+      rw [renderA_cons, T_cons, stripTok_of_ne _ _ k2, compat_nl _ _ _ _ _ hk]
+      simp only [adjustGo, k2, k3, hk, if_false, if_true]
+      rw [renderA_cons]
+      have k6 : t.kind ≠ .FSTRING_MIDDLE := by rcases hk with h | h <;> simp [h]
+      simp only [vis_of_ne _ k2 k6, ht]
+      have hgn := all_blank_noNl g hg
+      have e1 : xo ++ (g ++ ['\n'] ++ renderA as) = (xo ++ g) ++ '\n' :: renderA as := by simp
+      have e2 : yo ++ (['\n'] ++ compat ⟨stack, true, false⟩ (T p.length as)) =
+          yo ++ '\n' :: compat ⟨stack, true, false⟩ (T p.length as) := by simp
+      rw [e1, e2, matchLines_line _ _ _ _ (by rw [noNl_append, h1, hgn]; rfl) h2]
+      have := ih d stack true false false [] [] hwf' hlen hbl (fun h => Bool.noConfusion h) (lineInv_fresh _)
+      simp only [List.nil_append] at this
+      rw [this, fixLine_eol sl am xo yo g hinv hg hgam]
+      simp [fixLine]
     cases hk : t.kind with
     | INDENT =>
       simp only [hk, Bool.and_eq_true, beq_iff_eq, decide_eq_true_eq, Bool.not_eq_true'] at hwf
-      obtain ⟨⟨⟨⟨hg0, htb⟩, hle⟩, _⟩, hwf'⟩ := hwf
-      subst hg0
+      obtain ⟨⟨⟨⟨⟨hg0, htb⟩, hle⟩, _⟩, ham⟩, hwf'⟩ := hwf
+      subst hg0; subst ham
       have hst : stripTok p.length t = { t with text := t.text.drop p.length } := by
         simp [stripTok, hk, hle]
       rw [renderA_cons, T_cons, hst, compat_indent _ _ _ _ _ (by simpa using hk)]
       simp only [adjustGo, hk, if_true]
       rw [renderA_cons]
       simp only [vis, hk, if_true, List.nil_append, List.append_nil]
-      exact ih (d + 1) (t.text.drop p.length :: stack) sl false xo yo hwf' (by simp [hlen])
+      exact ih (d + 1) (t.text.drop p.length :: stack) sl false false xo yo hwf' (by simp [hlen])
         (by intro i hi
             rcases List.mem_cons.mp hi with h | h
             · subst h; exact all_blank_drop _ _ htb
             · exact hbl i h)
         (fun h => Bool.noConfusion h) hinv
     | DEDENT =>
-      simp only [hk, Bool.and_eq_true, beq_iff_eq, bne_iff_ne, ne_eq] at hwf
-      obtain ⟨⟨⟨hg0, ht0⟩, hd⟩, hwf'⟩ := hwf
-      subst hg0
+      simp only [hk, Bool.and_eq_true, beq_iff_eq, bne_iff_ne, ne_eq, Bool.not_eq_true'] at hwf
+      obtain ⟨⟨⟨⟨hg0, ht0⟩, hd⟩, ham⟩, hwf'⟩ := hwf
+      subst hg0; subst ham
       have k2 : t.kind ≠ .INDENT := by simp [hk]
       rw [renderA_cons, T_cons, stripTok_of_ne _ _ k2, compat_dedent _ _ _ _ _ hk]
       simp only [adjustGo, hk, reduceCtorEq, if_false, if_true]
       rw [renderA_cons]
-      simp only [vis, k2, if_false, ht0, List.nil_append, List.append_nil]
-      exact ih (d - 1) stack.tail sl false xo yo hwf' (by simp [hlen])
+      simp only [vis_of_ne _ k2 (by simp [hk]), ht0, List.nil_append, List.append_nil]
+      exact ih (d - 1) stack.tail sl false false xo yo hwf' (by simp [hlen])
         (fun i hi => hbl i (List.mem_of_mem_tail hi)) (fun h => Bool.noConfusion h) hinv
     | ENDMARKER =>
       simp only [hk, Bool.and_eq_true, beq_iff_eq, List.isEmpty_iff] at hwf
@@ -552,104 +650,71 @@ theorem main (p : Str) : ∀ (rest : List ATok), MainFor p rest := by
         | cons i r => simp at hlen; omega
       subst hs
       have k2 : t.kind ≠ .INDENT := by simp [hk]
-      obtain ⟨h1, h2⟩ := lineInv_nl _ _ _ hinv
+      obtain ⟨h1, h2⟩ := lineInv_nl _ _ _ _ hinv
       rw [renderA_cons, T_cons, stripTok_of_ne _ _ k2]
       have : T p.length ([] : List ATok) = [] := rfl
       rw [this, compat_endmarker_nil _ _ _ hk ht0]
       simp only [adjustGo, hk, reduceCtorEq, if_false, false_or, renderA, List.flatMap_cons, List.flatMap_nil, vis,
-        ht0, List.append_nil, List.nil_append]
+        ht0, List.append_nil]
       rw [matchLines_noNl _ _ h1 h2]
       cases sl <;> simp [trimTo]
     | NEWLINE =>
-      simp only [hk, Bool.and_eq_true, beq_iff_eq] at hwf
-      obtain ⟨ht, hwf'⟩ := hwf
-      have k2 : t.kind ≠ .INDENT := by simp [hk]
-      obtain ⟨h1, h2⟩ := lineInv_nl _ _ _ hinv
-      rw [renderA_cons, T_cons, stripTok_of_ne _ _ k2, compat_nl _ _ _ _ _ (Or.inl hk)]
-      simp only [adjustGo, hk, reduceCtorEq, if_false, true_or, if_true]
-      rw [renderA_cons]
-      simp only [vis, k2, if_false, ht]
-      have hgn := all_blank_noNl g hg
-      have e1 : xo ++ (g ++ ['\n'] ++ renderA as) = (xo ++ g) ++ '\n' :: renderA as := by simp
-      have e2 : yo ++ (['\n'] ++ compat ⟨stack, true, false⟩ (T p.length as)) =
-          yo ++ '\n' :: compat ⟨stack, true, false⟩ (T p.length as) := by simp
-      rw [e1, e2, matchLines_line _ _ _ _ (by rw [noNl_append, h1, hgn]; rfl) h2]
-      have := ih d stack true false [] [] hwf' hlen hbl (fun h => Bool.noConfusion h) lineInv_fresh
-      simp only [List.nil_append] at this
-      rw [this]
-      cases sl with
-      | true =>
-        obtain ⟨hx, hy⟩ := hinv.1 rfl
-        subst hx; subst hy
-        simp only [List.nil_append]
-        rw [fixLine_blank _ (all_blank_space g hg)]
-        simp [fixLine]
-      | false =>
-        obtain ⟨_, _, hx2, hy2⟩ := hinv.2 rfl
-        have := fixLine_closed xo yo g [] hx2 hy2
-        simp only [List.append_nil] at this
-        rw [this]; simp [fixLine]
+      simp only [hk, Bool.and_eq_true, beq_iff_eq, Bool.or_eq_true, Bool.not_eq_true'] at hwf
+      obtain ⟨⟨ht, hgam⟩, hwf'⟩ := hwf
+      exact nlcase (Or.inl hk) ht (by intro h; rcases hgam with h' | h'
+                                      · rw [h] at h'; cases h'
+                                      · exact h') hwf'
     | NL =>
-      simp only [hk, Bool.and_eq_true, beq_iff_eq] at hwf
-      obtain ⟨ht, hwf'⟩ := hwf
-      have k2 : t.kind ≠ .INDENT := by simp [hk]
-      obtain ⟨h1, h2⟩ := lineInv_nl _ _ _ hinv
-      rw [renderA_cons, T_cons, stripTok_of_ne _ _ k2, compat_nl _ _ _ _ _ (Or.inr hk)]
-      simp only [adjustGo, hk, reduceCtorEq, if_false, or_true, if_true]
-      rw [renderA_cons]
-      simp only [vis, k2, if_false, ht]
-      have hgn := all_blank_noNl g hg
-      have e1 : xo ++ (g ++ ['\n'] ++ renderA as) = (xo ++ g) ++ '\n' :: renderA as := by simp
-      have e2 : yo ++ (['\n'] ++ compat ⟨stack, true, false⟩ (T p.length as)) =
-          yo ++ '\n' :: compat ⟨stack, true, false⟩ (T p.length as) := by simp
-      rw [e1, e2, matchLines_line _ _ _ _ (by rw [noNl_append, h1, hgn]; rfl) h2]
-      have := ih d stack true false [] [] hwf' hlen hbl (fun h => Bool.noConfusion h) lineInv_fresh
-      simp only [List.nil_append] at this
-      rw [this]
-      cases sl with
-      | true =>
-        obtain ⟨hx, hy⟩ := hinv.1 rfl
-        subst hx; subst hy
-        simp only [List.nil_append]
-        rw [fixLine_blank _ (all_blank_space g hg)]
-        simp [fixLine]
-      | false =>
-        obtain ⟨_, _, hx2, hy2⟩ := hinv.2 rfl
-        have := fixLine_closed xo yo g [] hx2 hy2
-        simp only [List.append_nil] at this
-        rw [this]; simp [fixLine]
+      simp only [hk, Bool.and_eq_true, beq_iff_eq, Bool.or_eq_true, Bool.not_eq_true'] at hwf
+      obtain ⟨⟨ht, hgam⟩, hwf'⟩ := hwf
+      exact nlcase (Or.inr hk) ht (by intro h; rcases hgam with h' | h'
+                                      · rw [h] at h'; cases h'
+                                      · exact h') hwf'
     | FSTRING_MIDDLE =>
       simp only [hk, Bool.and_eq_true, beq_iff_eq, Bool.not_eq_true'] at hwf
-      obtain ⟨⟨⟨hg0, hsl⟩, htn⟩, hwf'⟩ := hwf
+      obtain ⟨⟨hg0, hsl⟩, hwf'⟩ := hwf
       subst hg0; subst hsl
       have k2 : t.kind ≠ .INDENT := by simp [hk]
-      obtain ⟨hx1, hy1, hx2, hy2⟩ := hinv.2 rfl
+      obtain ⟨hx1, hy1, hcase⟩ := hinv.2 rfl
+      have hI2 : Inv2 xo yo := ⟨hx1, hy1, by
+        rcases hcase with h | ⟨_, h1, h2⟩
+        · exact Or.inl h
+        · exact Or.inr ⟨h1, h2⟩⟩
+      have hst : Stable xo yo (fixLine xo yo) := by
+        intro a
+        rcases hcase with ⟨hx2, hy2⟩ | ⟨_, h1, _⟩
+        · exact fixLine_closed xo yo a a hx2 hy2
+        · subst h1; simp [fixLine_self]
       rw [renderA_cons, T_cons, stripTok_of_ne _ _ k2, compat_middle _ _ _ _ hk,
         adjustGo_vis _ _ _ _ _ k2 (by simp [hk]) (by simp [hk]) (by simp [hk]), renderA_cons]
-      simp only [vis, k2, if_false, Bool.false_eq_true, List.nil_append]
-      have hcl : LineInv false (xo ++ t.text) (yo ++ escapeBraces t.text) := by
-        apply lineInv_closed
-        · rw [noNl_append, hx1, htn]; rfl
-        · rw [noNl_append, hy1, escapeBraces_noNl _ htn]; rfl
-        · rw [lead_closed _ _ hx2, List.length_append]; omega
-        · rw [lead_closed _ _ hy2, List.length_append]; omega
-      have := ih d stack false false _ _ hwf' hlen hbl (fun h => Bool.noConfusion h) hcl
-      rw [fixLine_closed _ _ _ _ hx2 hy2] at this
-      simp only [List.append_assoc] at this ⊢
-      rw [this]
+      simp only [vis_middle _ hk, Bool.false_eq_true, if_false, List.nil_append]
+      have e1 : xo ++ (escapeBraces t.text ++ renderA as) = xo ++ escapeBraces t.text ++ renderA as := by simp
+      have e2 : yo ++ (escapeBraces t.text ++ compat ⟨stack, false, false⟩ (T p.length as)) =
+          yo ++ escapeBraces t.text ++ compat ⟨stack, false, false⟩ (T p.length as) := by simp
+      rw [e1, e2, matchLines_common (escapeBraces t.text) xo yo _ _ hx1 hy1]
+      have hinv2 := common_inv (escapeBraces t.text) xo yo hI2
+      have hcl : LineInv false true (commonA xo (escapeBraces t.text)) (commonA yo (escapeBraces t.text)) :=
+        ⟨fun h => Bool.noConfusion h, fun _ => ⟨hinv2.1, hinv2.2.1, by
+          rcases hinv2.2.2 with h | ⟨h1, h2⟩
+          · exact Or.inl h
+          · exact Or.inr ⟨rfl, h1, h2⟩⟩⟩
+      rw [ih d stack false false true _ _ hwf' hlen hbl (fun h => Bool.noConfusion h) hcl, ← List.append_assoc,
+        common_stable (escapeBraces t.text) xo yo (fixLine xo yo) hst]
+      simp
     | STRING =>
-      simp only [hk, Bool.and_eq_true, bne_iff_ne, ne_eq] at hwf
-      obtain ⟨⟨⟨_, hl⟩, hd⟩, hwf'⟩ := hwf
+      simp only [hk, Bool.and_eq_true, bne_iff_ne, ne_eq, Bool.not_eq_true'] at hwf
+      obtain ⟨⟨⟨⟨_, hl⟩, hd⟩, ham⟩, hwf'⟩ := hwf
+      subst ham
       have hne : stack ≠ [] := by intro h; subst h; simp at hlen; exact hd hlen.symm
       have k2 : t.kind ≠ .INDENT := by simp [hk]
       rw [renderA_cons, T_cons, stripTok_of_ne _ _ k2,
         compat_vis _ _ _ _ _ hne (by simp [hk]) k2 (by simp [hk]) (by simp [hk]) (by simp [hk]) (by simp [hk]),
         adjustGo_vis _ _ _ _ _ k2 (by simp [hk]) (by simp [hk]) (by simp [hk]), renderA_cons]
-      simp only [vis, k2, if_false, hk, decide_true, reduceCtorEq]
-      have H : ∀ xo' yo', LineInv false xo' yo' →
+      simp only [vis, if_false, hk, decide_true, reduceCtorEq]
+      have H : ∀ xo' yo', LineInv false false xo' yo' →
           matchLines (xo' ++ renderA as) (yo' ++ compat ⟨stack, false, true⟩ (T p.length as)) =
             fixLine xo' yo' ++ renderA (adjustGo p.length stack false as) :=
-        fun xo' yo' h => ih d stack false true xo' yo' hwf' hlen hbl (fun _ => rfl) h
+        fun xo' yo' h => ih d stack false true false xo' yo' hwf' hlen hbl (fun _ => rfl) h
       have hv : vOf ps t = (if ps = true then [' '] else []) ++ t.text := by
         simp only [vOf, hk, reduceCtorEq, or_self, if_false, true_and]
         cases ps <;> simp
@@ -661,15 +726,33 @@ theorem main (p : Str) : ∀ (rest : List ATok), MainFor p rest := by
       rw [hv]
       simp only [List.append_assoc] at this ⊢
       rw [this]
-    | NAME => simp only [hk, Bool.and_eq_true, bne_iff_ne, ne_eq] at hwf; exact word hwf.1.1 hwf.1.2 hwf.2 (by simp [hk])
-    | NUMBER => simp only [hk, Bool.and_eq_true, bne_iff_ne, ne_eq] at hwf; exact word hwf.1.1 hwf.1.2 hwf.2 (by simp [hk])
-    | OP => simp only [hk, Bool.and_eq_true, bne_iff_ne, ne_eq] at hwf; exact word hwf.1.1 hwf.1.2 hwf.2 (by simp [hk])
-    | COMMENT => simp only [hk, Bool.and_eq_true, bne_iff_ne, ne_eq] at hwf; exact word hwf.1.1 hwf.1.2 hwf.2 (by simp [hk])
-    | FSTRING_START => simp only [hk, Bool.and_eq_true, bne_iff_ne, ne_eq] at hwf; exact word hwf.1.1 hwf.1.2 hwf.2 (by simp [hk])
-    | FSTRING_END => simp only [hk, Bool.and_eq_true, bne_iff_ne, ne_eq] at hwf; exact word hwf.1.1 hwf.1.2 hwf.2 (by simp [hk])
+    | NAME => simp only [hk, Bool.and_eq_true, bne_iff_ne, ne_eq, Bool.or_eq_true, Bool.not_eq_true', beq_iff_eq] at hwf; exact word hwf.1.1.1 hwf.1.1.2 (by intro h; rcases hwf.1.2 with h' | h'; (· rw [h] at h'; cases h'); exact h') hwf.2 (by simp [hk])
+    | NUMBER => simp only [hk, Bool.and_eq_true, bne_iff_ne, ne_eq, Bool.or_eq_true, Bool.not_eq_true', beq_iff_eq] at hwf; exact word hwf.1.1.1 hwf.1.1.2 (by intro h; rcases hwf.1.2 with h' | h'; (· rw [h] at h'; cases h'); exact h') hwf.2 (by simp [hk])
+    | OP => simp only [hk, Bool.and_eq_true, bne_iff_ne, ne_eq, Bool.or_eq_true, Bool.not_eq_true', beq_iff_eq] at hwf; exact word hwf.1.1.1 hwf.1.1.2 (by intro h; rcases hwf.1.2 with h' | h'; (· rw [h] at h'; cases h'); exact h') hwf.2 (by simp [hk])
+    | COMMENT => simp only [hk, Bool.and_eq_true, bne_iff_ne, ne_eq, Bool.or_eq_true, Bool.not_eq_true', beq_iff_eq] at hwf; exact word hwf.1.1.1 hwf.1.1.2 (by intro h; rcases hwf.1.2 with h' | h'; (· rw [h] at h'; cases h'); exact h') hwf.2 (by simp [hk])
+    | FSTRING_START => simp only [hk, Bool.and_eq_true, bne_iff_ne, ne_eq, Bool.or_eq_true, Bool.not_eq_true', beq_iff_eq] at hwf; exact word hwf.1.1.1 hwf.1.1.2 (by intro h; rcases hwf.1.2 with h' | h'; (· rw [h] at h'; cases h'); exact h') hwf.2 (by simp [hk])
+    | FSTRING_END => simp only [hk, Bool.and_eq_true, bne_iff_ne, ne_eq, Bool.or_eq_true, Bool.not_eq_true', beq_iff_eq] at hwf; exact word hwf.1.1.1 hwf.1.1.2 (by intro h; rcases hwf.1.2 with h' | h'; (· rw [h] at h'; cases h'); exact h') hwf.2 (by simp [hk])
     | ENCODING => simp [hk] at hwf
     | OTHER => simp [hk] at hwf
 
+/-- what `wfGo` says about the tail, whatever the token -/
+theorem wfGo_step (p : Str) (st : WState) (a : ATok) (as : List ATok) (h : wfGo p st (a :: as) = true) :
+    (a.tok.kind = .INDENT → mixes (p.contains '\t') a.tok.text = false) ∧
+    (a.tok.kind = .DEDENT → st.depth ≠ 0) ∧
+    (as = [] ∨ ∃ sl am, wfGo p ⟨(if a.tok.kind = .INDENT then st.depth + 1 else if a.tok.kind = .DEDENT then
+        st.depth - 1 else st.depth), sl, am⟩ as = true) := by
+  obtain ⟨g, t⟩ := a
+  simp only [wfGo, Bool.and_eq_true] at h
+  obtain ⟨_, h⟩ := h
+  cases hk : t.kind <;> simp only [hk, Bool.and_eq_true, beq_iff_eq, decide_eq_true_eq, Bool.not_eq_true',
+      List.isEmpty_iff, bne_iff_ne, ne_eq, Bool.or_eq_true] at h <;>
+    simp only [reduceCtorEq, if_false, if_true, false_implies, true_and, forall_const, and_true]
+  case INDENT => exact ⟨h.1.1.2, Or.inr ⟨_, _, h.2⟩⟩
+  case DEDENT => exact ⟨h.1.1.2, Or.inr ⟨_, _, h.2⟩⟩
+  case ENDMARKER => exact Or.inl h.2
+  case ENCODING => exact absurd h (by simp)
+  case OTHER => exact absurd h (by simp)
+  all_goals exact Or.inr ⟨_, _, h.2⟩
 
 theorem wfGo_no_mixed (p : Str) : ∀ (as : List ATok) (st : WState), wfGo p st as = true →
     (as.map (·.tok)).any (fun t => t.kind = .INDENT && mixes (p.contains '\t') t.text) = false := by
@@ -678,45 +761,39 @@ theorem wfGo_no_mixed (p : Str) : ∀ (as : List ATok) (st : WState), wfGo p st 
   | nil => intro _ _; rfl
   | cons a as ih =>
     intro st hwf
-    obtain ⟨g, t⟩ := a
-    simp only [wfGo, Bool.and_eq_true] at hwf
-    obtain ⟨_, hwf⟩ := hwf
+    obtain ⟨h1, _, h3⟩ := wfGo_step p st a as hwf
     simp only [List.map_cons, List.any_cons, Bool.or_eq_false_iff]
-    by_cases hI : t.kind = .INDENT
-    · simp only [hI, Bool.and_eq_true, beq_iff_eq, decide_eq_true_eq, Bool.not_eq_true'] at hwf
-      refine ⟨?_, ih _ hwf.2⟩
-      rw [hwf.1.2, Bool.and_false]
-    · have h1 : (decide (t.kind = .INDENT) && mixes (p.contains '\t') t.text) = false := by
-        rw [decide_eq_false hI, Bool.false_and]
-      refine ⟨h1, ?_⟩
-      cases hk : t.kind <;> simp only [hk, Bool.and_eq_true, beq_iff_eq, decide_eq_true_eq, Bool.not_eq_true',
-          List.isEmpty_iff, bne_iff_ne, ne_eq] at hwf
-      case INDENT => exact absurd hk hI
-      case ENDMARKER => obtain ⟨_, has⟩ := hwf; subst has; rfl
-      case ENCODING => exact absurd hwf (by simp)
-      case OTHER => exact absurd hwf (by simp)
-      all_goals exact ih _ hwf.2
+    constructor
+    · by_cases hI : a.tok.kind = .INDENT
+      · rw [h1 hI, Bool.and_false]
+      · rw [decide_eq_false hI, Bool.false_and]
+    · rcases h3 with h | ⟨sl, am, h⟩
+      · subst h; rfl
+      · exact ih _ h
 
-theorem wfGo_popUnderflow (p : Str) (lvl : Nat) : ∀ (as : List ATok) (d : Nat) (sl : Bool),
-    wfGo p ⟨d, sl⟩ as = true → popUnderflow d (T lvl as) = false := by
+theorem wfGo_popUnderflow (p : Str) (lvl : Nat) : ∀ (as : List ATok) (d : Nat) (sl am : Bool),
+    wfGo p ⟨d, sl, am⟩ as = true → popUnderflow d (T lvl as) = false := by
   intro as
   induction as with
-  | nil => intro _ _ _; rfl
+  | nil => intro _ _ _ _; rfl
   | cons a as ih =>
-    intro d sl hwf
-    obtain ⟨g, t⟩ := a
-    simp only [wfGo, Bool.and_eq_true] at hwf
-    obtain ⟨_, hwf⟩ := hwf
+    intro d sl am hwf
+    obtain ⟨_, h2, h3⟩ := wfGo_step p _ a as hwf
     rw [T_cons]
     simp only [popUnderflow, stripTok_kind]
-    cases hk : t.kind <;> simp only [hk, Bool.and_eq_true, beq_iff_eq, decide_eq_true_eq, Bool.not_eq_true',
-        List.isEmpty_iff, bne_iff_ne, ne_eq] at hwf <;>
-      first
-      | (simp only [reduceCtorEq, if_false, if_true]; exact ih _ _ hwf.2)
-      | (simp only [reduceCtorEq, if_false, if_true, Bool.or_eq_false_iff, decide_eq_false_iff_not]
-         exact ⟨hwf.1.2, ih _ _ hwf.2⟩)
-      | (obtain ⟨_, has⟩ := hwf; subst has; simp [T, popUnderflow])
-      | exact absurd hwf (by simp)
+    have tail : ∀ d', (as = [] ∨ ∃ sl am, wfGo p ⟨d', sl, am⟩ as = true) → popUnderflow d' (T lvl as) = false := by
+      intro d' h
+      rcases h with h | ⟨sl', am', h⟩
+      · subst h; rfl
+      · exact ih _ _ _ h
+    by_cases hI : a.tok.kind = .INDENT
+    · simp only [hI, if_true] at h3 ⊢
+      exact tail _ h3
+    · by_cases hD : a.tok.kind = .DEDENT
+      · simp only [hD, reduceCtorEq, if_false, if_true, Bool.or_eq_false_iff, decide_eq_false_iff_not] at h3 ⊢
+        exact ⟨h2 hD, tail _ h3⟩
+      · simp only [hI, hD, if_false] at h3 ⊢
+        exact tail _ h3
 
 theorem compat_fresh_top_nil (s : List Str) (ps : Bool) (t : Tok) (ts : List Tok)
     (h1 : t.kind ≠ .ENCODING) (h2 : t.kind ≠ .INDENT) (h3 : t.kind ≠ .DEDENT) (h6 : t.kind ≠ .FSTRING_MIDDLE) :
@@ -742,11 +819,11 @@ theorem dedentCore_wf (p : Str) (as : List ATok) (h : wf p as = true) :
     have hbi : blockIndent ((⟨[], t⟩ :: b :: rest : List ATok).map (·.tok)) = some t.text := by
       simp [blockIndent, hk]
     have hmix := wfGo_no_mixed t.text (b :: rest) _ hwf
-    have hpop := wfGo_popUnderflow t.text t.text.length (b :: rest) 1 true hwf
+    have hpop := wfGo_popUnderflow t.text t.text.length (b :: rest) 1 true false hwf
     simp only [zeroWidth, Bool.or_eq_false_iff, decide_eq_false_iff_not] at hbz
     obtain ⟨⟨⟨b2, b3⟩, _⟩, b1⟩ := hbz
-    have hmain := main t.text (b :: rest) 1 [[]] true false [] [] hwf rfl
-      (by intro i hi; simp at hi; subst hi; rfl) (fun h => Bool.noConfusion h) lineInv_fresh
+    have hmain := main t.text (b :: rest) 1 [[]] true false false [] [] hwf rfl
+      (by intro i hi; simp at hi; subst hi; rfl) (fun h => Bool.noConfusion h) (lineInv_fresh _)
     have hst : stripTok t.text.length t = { t with text := [] } := by
       simp [stripTok, hk]
     have hrender : renderA (⟨[], t⟩ :: b :: rest) = renderA (b :: rest) := by
@@ -836,8 +913,8 @@ theorem gap_goal_comment (g : Str) (k : Nat) (sl : Bool) :
 
 /-- adjust's stack is the tokenizer's stack with the block prefix stripped -/
 def MainSpecFor (p : Str) (as : List ATok) : Prop :=
-  ∀ (d : Nat) (sl logical : Bool) (full : List Str),
-    wfGo p ⟨d, sl⟩ as = true → startsOkGo p full logical as = true → full.length = d →
+  ∀ (d : Nat) (sl am logical : Bool) (full : List Str),
+    wfGo p ⟨d, sl, am⟩ as = true → startsOkGo p full logical as = true → full.length = d →
     (∀ i ∈ full, p.isPrefixOf i = true) →
     dedentSpecGo p logical sl as (adjustGo p.length (full.map (List.drop p.length)) sl as) = true
 
@@ -848,15 +925,15 @@ theorem headD_map_drop (full : List Str) (n : Nat) :
 theorem mainSpec (p : Str) (hp : p ≠ []) : ∀ as, MainSpecFor p as := by
   intro as
   induction as with
-  | nil => intro _ _ _ _ _ _ _ _; rfl
+  | nil => intro _ _ _ _ _ _ _ _ _; rfl
   | cons a as ih =>
-    intro d sl logical full hwf hso hlen hpre
+    intro d sl am logical full hwf hso hlen hpre
     obtain ⟨g, t⟩ := a
     simp only [wfGo, Bool.and_eq_true] at hwf
     obtain ⟨hg, hwf⟩ := hwf
     -- a visible code token (not comment / newline / zero-width)
     have code : ∀ (hz : zeroWidth t.kind = false) (h4 : t.kind ≠ .NEWLINE) (h5 : t.kind ≠ .NL) (h7 : t.kind ≠ .COMMENT)
-        (hd : d ≠ 0) (hwf' : wfGo p ⟨d, false⟩ as = true),
+        (hd : d ≠ 0) (hwf' : wfGo p ⟨d, false, false⟩ as = true),
         dedentSpecGo p logical sl (⟨g, t⟩ :: as)
           (adjustGo p.length (full.map (List.drop p.length)) sl (⟨g, t⟩ :: as)) = true := by
       intro hz h4 h5 h7 hd hwf'
@@ -868,7 +945,7 @@ theorem mainSpec (p : Str) (hp : p ≠ []) : ∀ as, MainSpecFor p as := by
       rw [adjustGo_vis _ _ _ _ _ k2 k3 h4 h5]
       simp only [dedentSpecGo, beq_self_eq_true, Bool.true_and, zeroWidth, k1, k2, k3, k8, decide_false, Bool.or_self,
         Bool.false_eq_true, if_false, h4, h5, h7, or_self]
-      refine band_intro (gap_goal p g _ sl logical ?_) (ih d false false full hwf' hso' hlen hpre)
+      refine band_intro (gap_goal p g _ sl logical ?_) (ih d false false false full hwf' hso' hlen hpre)
       intro hsl hlog
       subst hsl; subst hlog
       have hgap' : g = full.headD [] := by simpa using hgap
@@ -886,11 +963,11 @@ theorem mainSpec (p : Str) (hp : p ≠ []) : ∀ as, MainSpecFor p as := by
     cases hk : t.kind with
     | INDENT =>
       simp only [hk, Bool.and_eq_true, beq_iff_eq, decide_eq_true_eq, Bool.not_eq_true'] at hwf
-      obtain ⟨⟨⟨⟨hg0, _⟩, _⟩, _⟩, hwf'⟩ := hwf
+      obtain ⟨⟨⟨⟨⟨hg0, _⟩, _⟩, _⟩, _⟩, hwf'⟩ := hwf
       simp only [startsOkGo, hk, if_true, Bool.and_eq_true] at hso
       simp only [adjustGo, hk, if_true, dedentSpecGo, beq_self_eq_true, Bool.true_and, zeroWidth, decide_true,
         Bool.true_or, Bool.or_true]
-      have := ih (d + 1) sl logical (t.text :: full) hwf' hso.2 (by simp [hlen])
+      have := ih (d + 1) sl false logical (t.text :: full) hwf' hso.2 (by simp [hlen])
         (by intro i hi
             rcases List.mem_cons.mp hi with h | h
             · subst h; exact hso.1
@@ -898,11 +975,11 @@ theorem mainSpec (p : Str) (hp : p ≠ []) : ∀ as, MainSpecFor p as := by
       simpa using this
     | DEDENT =>
       simp only [hk, Bool.and_eq_true, beq_iff_eq, bne_iff_ne, ne_eq] at hwf
-      obtain ⟨⟨⟨hg0, ht0⟩, hd⟩, hwf'⟩ := hwf
+      obtain ⟨⟨⟨⟨hg0, ht0⟩, hd⟩, _⟩, hwf'⟩ := hwf
       simp only [startsOkGo, hk, reduceCtorEq, if_false, if_true] at hso
       simp only [adjustGo, hk, reduceCtorEq, if_false, if_true, dedentSpecGo, beq_self_eq_true, Bool.true_and, zeroWidth,
         decide_true, decide_false, Bool.true_or, Bool.or_true, Bool.false_or]
-      have := ih (d - 1) sl logical full.tail hwf' hso (by simp [hlen])
+      have := ih (d - 1) sl false logical full.tail hwf' hso (by simp [hlen])
         (fun i hi => hpre i (List.mem_of_mem_tail hi))
       simpa [List.map_tail] using this
     | ENDMARKER =>
@@ -915,38 +992,38 @@ theorem mainSpec (p : Str) (hp : p ≠ []) : ∀ as, MainSpecFor p as := by
       simp only [startsOkGo, hk, reduceCtorEq, if_false, if_true] at hso
       simp only [adjustGo, hk, reduceCtorEq, if_false, true_or, if_true, dedentSpecGo, beq_self_eq_true, Bool.true_and,
         zeroWidth, decide_false, Bool.or_self, Bool.false_eq_true, decide_true, Bool.or_true, Bool.and_eq_true]
-      refine ⟨by cases sl <;> simp, ih d true true full hwf.2 hso hlen hpre⟩
+      refine ⟨by cases sl <;> simp, ih d true false true full hwf.2 hso hlen hpre⟩
     | NL =>
       simp only [hk, Bool.and_eq_true, beq_iff_eq] at hwf
       simp only [startsOkGo, hk, reduceCtorEq, if_false, true_or, if_true] at hso
       simp only [adjustGo, hk, reduceCtorEq, if_false, or_true, if_true, dedentSpecGo, beq_self_eq_true, Bool.true_and,
         zeroWidth, decide_false, Bool.or_self, Bool.false_eq_true, Bool.or_false, Bool.and_eq_true]
-      refine ⟨by cases sl <;> simp, ih d true logical full hwf.2 hso hlen hpre⟩
+      refine ⟨by cases sl <;> simp, ih d true false logical full hwf.2 hso hlen hpre⟩
     | COMMENT =>
       simp only [hk, Bool.and_eq_true, bne_iff_ne, ne_eq] at hwf
       simp only [startsOkGo, hk, reduceCtorEq, if_false, or_true, true_or, if_true] at hso
       rw [adjustGo_vis _ _ _ _ _ (by simp [hk]) (by simp [hk]) (by simp [hk]) (by simp [hk])]
       simp only [dedentSpecGo, beq_self_eq_true, Bool.true_and, zeroWidth, hk, reduceCtorEq, decide_false, Bool.or_self,
         Bool.false_eq_true, if_false, or_self, if_true]
-      exact band_intro (gap_goal_comment g _ sl) (ih d false logical full hwf.2 hso hlen hpre)
+      exact band_intro (gap_goal_comment g _ sl) (ih d false false logical full hwf.2 hso hlen hpre)
     | FSTRING_MIDDLE =>
       simp only [hk, Bool.and_eq_true, beq_iff_eq, Bool.not_eq_true'] at hwf
-      obtain ⟨⟨⟨hg0, hsl⟩, _⟩, hwf'⟩ := hwf
+      obtain ⟨⟨hg0, hsl⟩, hwf'⟩ := hwf
       subst hsl
       have k2 : t.kind ≠ .INDENT := by simp [hk]
       simp only [startsOkGo, hk, reduceCtorEq, if_false, or_self, Bool.and_eq_true] at hso
       rw [adjustGo_vis _ _ _ _ _ k2 (by simp [hk]) (by simp [hk]) (by simp [hk])]
       simp only [dedentSpecGo, beq_self_eq_true, Bool.true_and, zeroWidth, hk, reduceCtorEq, decide_false, Bool.or_self,
         Bool.false_eq_true, if_false, or_self, Bool.false_and]
-      exact ih d false false full hwf' hso.2 hlen hpre
+      exact ih d false true false full hwf' hso.2 hlen hpre
     | STRING =>
       simp only [hk, Bool.and_eq_true, bne_iff_ne, ne_eq] at hwf
-      exact code (by simp [zeroWidth, hk]) (by simp [hk]) (by simp [hk]) (by simp [hk]) hwf.1.2 hwf.2
-    | NAME => simp only [hk, Bool.and_eq_true, bne_iff_ne, ne_eq] at hwf; exact code (by simp [zeroWidth, hk]) (by simp [hk]) (by simp [hk]) (by simp [hk]) hwf.1.2 hwf.2
-    | NUMBER => simp only [hk, Bool.and_eq_true, bne_iff_ne, ne_eq] at hwf; exact code (by simp [zeroWidth, hk]) (by simp [hk]) (by simp [hk]) (by simp [hk]) hwf.1.2 hwf.2
-    | OP => simp only [hk, Bool.and_eq_true, bne_iff_ne, ne_eq] at hwf; exact code (by simp [zeroWidth, hk]) (by simp [hk]) (by simp [hk]) (by simp [hk]) hwf.1.2 hwf.2
-    | FSTRING_START => simp only [hk, Bool.and_eq_true, bne_iff_ne, ne_eq] at hwf; exact code (by simp [zeroWidth, hk]) (by simp [hk]) (by simp [hk]) (by simp [hk]) hwf.1.2 hwf.2
-    | FSTRING_END => simp only [hk, Bool.and_eq_true, bne_iff_ne, ne_eq] at hwf; exact code (by simp [zeroWidth, hk]) (by simp [hk]) (by simp [hk]) (by simp [hk]) hwf.1.2 hwf.2
+      exact code (by simp [zeroWidth, hk]) (by simp [hk]) (by simp [hk]) (by simp [hk]) hwf.1.1.2 hwf.2
+    | NAME => simp only [hk, Bool.and_eq_true, bne_iff_ne, ne_eq] at hwf; exact code (by simp [zeroWidth, hk]) (by simp [hk]) (by simp [hk]) (by simp [hk]) hwf.1.1.2 hwf.2
+    | NUMBER => simp only [hk, Bool.and_eq_true, bne_iff_ne, ne_eq] at hwf; exact code (by simp [zeroWidth, hk]) (by simp [hk]) (by simp [hk]) (by simp [hk]) hwf.1.1.2 hwf.2
+    | OP => simp only [hk, Bool.and_eq_true, bne_iff_ne, ne_eq] at hwf; exact code (by simp [zeroWidth, hk]) (by simp [hk]) (by simp [hk]) (by simp [hk]) hwf.1.1.2 hwf.2
+    | FSTRING_START => simp only [hk, Bool.and_eq_true, bne_iff_ne, ne_eq] at hwf; exact code (by simp [zeroWidth, hk]) (by simp [hk]) (by simp [hk]) (by simp [hk]) hwf.1.1.2 hwf.2
+    | FSTRING_END => simp only [hk, Bool.and_eq_true, bne_iff_ne, ne_eq] at hwf; exact code (by simp [zeroWidth, hk]) (by simp [hk]) (by simp [hk]) (by simp [hk]) hwf.1.1.2 hwf.2
     | ENCODING => simp [hk] at hwf
     | OTHER => simp [hk] at hwf
 
@@ -955,7 +1032,7 @@ end Malt.Dedent
 
 namespace Malt.Dedent
 
-theorem wf_wfGo0 (p : Str) (as : List ATok) (h : wf p as = true) : p ≠ [] ∧ wfGo p ⟨0, true⟩ as = true := by
+theorem wf_wfGo0 (p : Str) (as : List ATok) (h : wf p as = true) : p ≠ [] ∧ wfGo p ⟨0, true, false⟩ as = true := by
   match as, h with
   | a :: b :: rest, h =>
     simp only [wf, Bool.and_eq_true, decide_eq_true_eq, beq_iff_eq, bne_iff_ne, ne_eq, Bool.not_eq_true'] at h
